@@ -829,7 +829,8 @@ fn dump_crate<'tcx>(tcx: TyCtxt<'tcx>, name: &str) -> String {
                 let cty = tcx.type_of(did).instantiate_identity().skip_norm_wip();
                 let mut val = "null".to_string();
                 let generic = tcx.generics_of(did).requires_monomorphization(tcx);
-                if !generic && (cty.is_integral() || cty.is_bool()) {
+                let scalar_like = cty.is_integral() || cty.is_bool() || matches!(cty.kind(), ty::Adt(d, _) if d.is_struct());
+                if !generic && scalar_like {
                     if let Ok(cv) = tcx.const_eval_poly(did) {
                         if let Some(si) = cv.try_to_scalar_int() {
                             let size = si.size();
